@@ -3248,6 +3248,20 @@ var DefaultTransport RoundTripper = &transport{}
 
 type transport struct{}
 
+// eofReader remembers whether the wrapped reader reported io.EOF.
+type eofReader struct {
+	r   io.Reader
+	eof atomic.Bool
+}
+
+func (e *eofReader) Read(p []byte) (int, error) {
+	n, err := e.r.Read(p)
+	if err == io.EOF {
+		e.eof.Store(true)
+	}
+	return n, err
+}
+
 func (t *transport) RoundTrip(hc *HostClient, req *Request, resp *Response) (retry bool, err error) {
 	customSkipBody := resp.SkipBody
 	customStreamBody := resp.StreamBody
@@ -3340,7 +3354,13 @@ func (t *transport) RoundTrip(hc *HostClient, req *Request, resp *Response) (ret
 	if customStreamBody && resp.bodyStream != nil {
 		rbs := resp.bodyStream
 		var closed atomic.Bool
-		resp.bodyStream = newCloseReaderWithError(rbs, func(wErr error) error {
+		// The connection may only go back to the pool if the whole body was read
+		// from it. A body that was buffered completely (bytes.Reader) left nothing
+		// on the connection; a requestStream reads from the connection and has
+		// consumed the body only once it returned io.EOF.
+		_, fromConn := rbs.(*requestStream)
+		er := &eofReader{r: rbs}
+		resp.bodyStream = newCloseReaderWithError(er, func(wErr error) error {
 			if !closed.CompareAndSwap(false, true) {
 				return nil
 			}
@@ -3348,7 +3368,8 @@ func (t *transport) RoundTrip(hc *HostClient, req *Request, resp *Response) (ret
 			if r, ok := rbs.(*requestStream); ok {
 				releaseRequestStream(r)
 			}
-			if closeConn || resp.ConnectionClose() || wErr != nil {
+			unread := fromConn && !er.eof.Load()
+			if closeConn || resp.ConnectionClose() || wErr != nil || unread {
 				hc.CloseConn(cc)
 			} else {
 				hc.ReleaseConn(cc)
